@@ -36,7 +36,8 @@ def run(tier, seed):
         rp = [dict(name='C13_resume', progs=C.fam(progs), plans=[[]], alphabet=['resume'], k=4, overrides=ov, extra_defs=xd),
               dict(name='C13_env', progs=C.fam(progs), plans=[[]], alphabet=ppr, k=3, overrides=ov, extra_defs=xd),
               dict(name='C13_pausefault', progs=C.fam(['P04', 'P14', 'P20', 'P22']), plans=pfault, alphabet=['pause', 'play', 'resume'], k=3),
-              dict(name='C13_restore', progs=C.fam(progs), plans=saves, alphabet=['restore', 'resume'], k=2, run_kw=rkn),
+              dict(name='C13_restore', progs=C.fam(progs), plans=saves, alphabet=['restore', 'resume'], k=2, run_kw=rkn,
+                   overrides=[('MaxRestores', 'MCMaxRestores')], extra_defs='MCMaxRestores == 1\n'),
               dict(name='C13_hookpause', progs=C.fam(['P03', 'P06', 'P10', 'P13', 'P21', 'P22']), plans=hp, alphabet=['play', 'resume', 'pause'], k=3)]
         mc.append(dict(name='C13_hookpause', progs=C.fam(['P03', 'P06', 'P10', 'P13', 'P21', 'P22']), plans=hp, alphabet=['play', 'resume', 'pause'], k=4, invariants=INV[:1] + INV[2:]))
         mc.append(dict(name='C13_pausefault', progs=C.fam(progs), plans=pfault, alphabet=['pause', 'play', 'resume'], k=3, invariants=INV[:1]))
